@@ -221,6 +221,20 @@ def load_findings():
     return json.load(open(p))
 
 
+def sig_input(sig):
+    """the input a rejection was seen on: kind|parameters|input set|built or loaded"""
+    return "|".join(str(sig.get(k, "")) for k in ("kind", "par", "set", "origin"))
+
+
+def dump_known(fid, prop, sig):
+    """development aid (VERIF_DUMP_KNOWN=<file>): which inputs each recorded finding was matched on"""
+    path = os.environ.get("VERIF_DUMP_KNOWN")
+    if path:
+        with open(path, "a") as fh:
+            fh.write(json.dumps({"finding": fid, "property": prop, "input": sig_input(sig), "section": sig.get("section", sig.get("sec", "")),
+                                 "ev": sig.get("ev"), "why": sig.get("why"), "site": sig.get("site_fn", "")}) + "\n")
+
+
 def match_finding(findings, prop, sig):
     """sig: dict describing the failing case.  A finding matches when its property is
     equal and every key of its 'match' dict is present in sig with an equal value (or a
